@@ -29,6 +29,12 @@ CHECKS = {
     "C20": ("exploration", "reference-model monitors (dict pin memory, exact rational affine map, edge counter, fake serial backend) in lock-step with the real functions", "contracts",
             "small executable models compared with the real helpers on random interleavings and value grids",
             "Core's module-global dicts are cleared (and the clearing asserted) before each history"),
+    "C07": ("exploration", "env-guarded skip-log hook monitor + metamorphic re-layout (byte equality of emitted text) + firmware differential on re-laid-out programs", "layout",
+            "every line the parser skips is reported by the REDUINO_VERIF hook and classified against the allowed set; re-layouts that Python's ast sees as the same program must give byte-identical firmware",
+            "hook commit reports all silent-skip sites; ast.dump equality is the oracle that two layouts mean the same"),
+    "C14": ("exploration", "three-way set-agreement monitor (lib_deps / #include / instantiated classes) + compile with only the included libraries visible", "differential",
+            "all combinations of 0-2 servos (before / inside the main loop), 0-2 parallel and 0-2 I2C LCDs with and without other devices and actions are enumerated; a sample (quick) or all (thorough) are compiled and run",
+            "per-library mock headers live in separate include directories passed only when the sketch includes them"),
 }
 
 NOT_YET = {}
